@@ -102,8 +102,8 @@ func VP_C19_roundtrip() {
 }
 
 //vp:property C19
-//vp:set klen 2 3
-//vp:set vlen 2 3
+//vp:set klen 3 6
+//vp:set vlen 3 6
 //vp:bounds "for EVERY settings map of integers and strings": a map with one entry whose key (1..klen bytes) and string value (0..vlen bytes) are ARBITRARY ASCII — colons, '#', blanks, CR and LF included — beside one ordinary entry ("zz" -> 7)
 //vp:assume bytes are ASCII. A map the line format cannot carry (key empty / with ':' / starting with '#'; key or value with CR or LF or a leading or trailing blank) may be refused by Marshal with an error; what Marshal does accept must read back as the same map
 //vp:reach roundtrip refused
